@@ -21,11 +21,12 @@ import (
 )
 
 type TOp struct {
-	Op     string `json:"op"` // write | init | setseq | topowrite | list | listtx | lookup | last
+	Op     string `json:"op"` // write | init | setseq | topowrite | list | listtx | klist | lookup | last
 	Pos    uint64 `json:"pos,omitempty"`
 	Snap   int    `json:"snap,omitempty"` // snapshot identity (a snapshot is built deterministically from it)
 	Offset uint64 `json:"offset,omitempty"`
 	Count  uint64 `json:"count,omitempty"`
+	Quiet  bool   `json:"quiet,omitempty"` // checked by the oracle only, not sent to the model (keeps the Coq terms of the big-store battery small)
 }
 
 type Case struct {
@@ -322,7 +323,7 @@ func run(c *vh.Ctx, cs Case) {
 			}
 			e := entry{s.TopologicalOrder, idOf(h)}
 			es = append(es, e)
-			ts = append(ts, fmt.Sprintf("(%s,%s)", vh.NU(e.pos), vh.NU(uint64(e.id))))
+			ts = append(ts, fmt.Sprintf("E %d %d", e.pos, e.id))
 		}
 		return es, ts
 	}
@@ -407,13 +408,19 @@ func run(c *vh.Ctx, cs Case) {
 			}
 			c.Count("topowrite:" + []string{"ok", "err", "panic"}[code(pan, nil)])
 			terms = append(terms, vh.App("XTopoWrite", vh.NU(uint64(op.Snap)), resN(pan, nil, pos)))
-		case "list", "listtx":
+		case "list", "listtx", "klist":
+			if op.Op == "klist" && node == nil {
+				continue
+			}
 			var snaps []*common.SnapshotWithTopologicalOrder
 			var txs [][]*common.VersionedTransaction
 			var err error
 			pan, _ := vh.Catch(func() {
 				if op.Op == "list" {
 					snaps, err = store.ReadSnapshotsSinceTopology(op.Offset, op.Count)
+				} else if op.Op == "klist" {
+					// the kernel's listing, the one the p2p sync handle serves
+					snaps, err = node.ReadSnapshotsSinceTopology(op.Offset, op.Count)
 				} else {
 					snaps, txs, err = store.ReadSnapshotWithTransactionsSinceTopology(op.Offset, op.Count)
 				}
@@ -440,14 +447,16 @@ func run(c *vh.Ctx, cs Case) {
 			if len(es) >= 100 {
 				big = true
 			}
-			obs := vh.Ok(vh.List(ts, "(N*N)"))
+			obs := vh.Ok(vh.List(ts, "ent"))
 			if pan {
-				obs = vh.Pan("(list (N*N))")
+				obs = vh.Pan("(list ent)")
 			} else if err != nil {
-				obs = vh.Err("(list (N*N))")
+				obs = vh.Err("(list ent)")
 			}
 			c.Count(op.Op)
-			terms = append(terms, vh.App("XList", vh.NU(op.Offset), vh.NU(op.Count), obs))
+			if !op.Quiet {
+				terms = append(terms, vh.App("XList", vh.NU(op.Offset), vh.NU(op.Count), obs))
+			}
 		case "lookup":
 			b := snapOf(op.Snap, op.Snap < cs.Genesis)
 			register(b, op.Snap)
@@ -559,7 +568,7 @@ func genHistory(r *vh.Rand, nops int, large bool) Case {
 		}
 	}
 	if large {
-		k := r.Range(495, 560)
+		k := r.Range(505, 560) // more than the limit of 500, so every admissible count is fully served from the low cursors
 		for i := 0; i < k; i++ {
 			if r.Chance(1, 40) { // a gap in the positions
 				seq += uint64(r.Range(2, 5))
@@ -602,8 +611,11 @@ func genHistory(r *vh.Rand, nops int, large bool) Case {
 			}
 		case x < 75:
 			op := "list"
-			if r.Chance(1, 4) {
+			switch r.Intn(8) {
+			case 0, 1:
 				op = "listtx"
+			case 2, 3, 4:
+				op = "klist"
 			}
 			cs.Ops = append(cs.Ops, TOp{Op: op, Offset: somePos(), Count: someCount()})
 		case x < 90:
@@ -621,10 +633,32 @@ func genHistory(r *vh.Rand, nops int, large bool) Case {
 		}
 	}
 	if large {
-		for _, cnt := range []uint64{499, 500, 501, 1000} {
-			cs.Ops = append(cs.Ops, TOp{Op: "list", Offset: uint64(r.Intn(8)), Count: cnt})
+		// the battery on the big store: both layers (storage and the kernel's
+		// Node.ReadSnapshotsSinceTopology), counts at the batch / limit
+		// boundaries and random, cursors at the start, in the middle, near the
+		// end and beyond the end
+		cs.Ops = append(cs.Ops, TOp{Op: "init"})
+		sort.Slice(used, func(a, b int) bool { return used[a] < used[b] })
+		last := used[len(used)-1]
+		if last > max64-10 {
+			last = used[len(used)/2] // a history that wrote near 2^64: "beyond the end" is taken from the middle
 		}
-		cs.Ops = append(cs.Ops, TOp{Op: "listtx", Offset: uint64(r.Intn(60)), Count: 500}, TOp{Op: "listtx", Offset: 0, Count: 501})
+		counts := []uint64{1, 99, 100, 101, 199, 200, 201, 255, 256, 499, 500, 501,
+			uint64(r.Range(2, 98)), uint64(r.Range(102, 498)), uint64(r.Range(102, 498)), uint64(r.Range(502, 2000))}
+		cursors := []uint64{0, uint64(r.Intn(5)), used[len(used)/2], used[len(used)/3] + 1, used[len(used)-3], last, last + 1, last + uint64(r.Range(2, 1000)),
+			used[r.Intn(len(used))]}
+		for _, cnt := range counts {
+			for ci, cur := range cursors {
+				for li, layer := range []string{"list", "klist", "listtx"} {
+					if layer == "listtx" && !(ci == 0 || r.Chance(1, 6)) {
+						continue
+					}
+					// sent to the model: the limit boundaries from the start, and a random sixth
+					keep := (ci == 0 && li < 2 && (cnt == 101 || cnt == 500 || cnt == 501)) || r.Chance(1, 8) || cnt > 500
+					cs.Ops = append(cs.Ops, TOp{Op: layer, Offset: cur, Count: cnt, Quiet: !keep})
+				}
+			}
+		}
 	}
 	return cs
 }
@@ -657,8 +691,10 @@ func main() {
 	c.Rep.Rule = "corpus (empty store, cursor/count boundaries 0,1,500,501,2^64-1, position reuse, repeated snapshot, lagging counter, counter wrap), " +
 		"then random histories after 1-3 genesis snapshots: TopoWrite through a bare Node (40%), WriteSnapshot at chosen positions " +
 		"(free / gap / taken / far ahead), repeated snapshots, node restarts, lagging counters, listings with cursors around stored " +
-		"positions and counts 0..2^64-1 (both listing calls), lookups of stored and unknown hashes, LastSnapshot; a few histories " +
-		"hold 500-560 snapshots so that the limit of 500 binds. Non-trivial = at least one successful write and one listing; distinct by the history."
+		"positions and counts 0..2^64-1 (both listing calls), lookups of stored and unknown hashes, LastSnapshot; listings go through the storage calls and through the kernel's " +
+		"Node.ReadSnapshotsSinceTopology; a few histories hold 505-560 snapshots and then receive a battery of listings through all three " +
+		"calls: counts 1,99,100,101,199,200,201,255,256,499,500,501 and random, cursors at the start, middle, near the end and beyond " +
+		"the end (every one checked by the oracle, a subset replayed in the model). Non-trivial = at least one successful write and one listing; distinct by the history."
 	if c.Replay != "" {
 		var cs Case
 		c.ReplayCase(&cs)
@@ -671,7 +707,7 @@ func main() {
 		run(c, cs)
 	}
 	n := c.Scale(300, 8000)
-	nl := c.Scale(3, 60)
+	nl := c.Scale(2, 40)
 	for i := 0; i < n; i++ {
 		run(c, genHistory(c.Rng, c.Rng.Range(5, 40), false))
 	}
